@@ -789,6 +789,21 @@ impl<'a> RefWriter<'a> {
                                 bodies.insert(at, format!("(ghost copy {} in container {})", c, sid).into_bytes());
                             }
                         }
+                        // (C08 only) outdated copies of length objects: a length that lives in another object stream
+                        // also appears here with a smaller value and without a cross-reference row of its own - what an
+                        // object stream of an older revision looks like to a loader that reads every container
+                        let mut stale_here: Vec<u32> = vec![];
+                        if self.ghost_objects {
+                            let candidates: Vec<(u32, i64)> = extra_objs.iter().filter_map(|(n, o)| if let RObj::Int(v) = o { Some((*n, *v)) } else { None }).filter(|(n, v)| !nums.contains(n) && *v > 1).collect();
+                            for (n, v) in candidates {
+                                if self.ch.rng.bool() {
+                                    let at = self.ch.rng.usize_below(nums.len() + 1);
+                                    nums.insert(at, n);
+                                    bodies.insert(at, format!("{}", v / 2).into_bytes());
+                                    stale_here.push(n);
+                                }
+                            }
+                        }
                         // (C08 only) an entry whose number lies far beyond Size and that no cross-reference row names,
                         // a different one in each container, at the end of the index
                         let mut beyond: Option<u32> = None;
@@ -869,7 +884,7 @@ impl<'a> RefWriter<'a> {
                             ents.insert(row, Ent::InUse(off2, 0));
                         }
                         for (k, n) in nums.iter().enumerate() {
-                            if Some(*n) != ghost && Some(*n) != beyond {
+                            if Some(*n) != ghost && Some(*n) != beyond && !stale_here.contains(n) {
                                 ents.insert(*n, Ent::Compressed(sid, k));
                             }
                         }
